@@ -757,6 +757,45 @@ impl ChunkCreator for CursorVec {
     }
 }
 
+/// Verification-only hooks, compiled only with `--cfg grenad_verif`.
+///
+/// They let a simulator drive the unmodified insert/spill/realloc/merge logic
+/// with kilobyte-sized budgets and observe (read-only) the buffer bookkeeping.
+#[cfg(grenad_verif)]
+impl<MF, CC> SorterBuilder<MF, CC> {
+    /// Sets the dump threshold without clamping it to the shipped minimum.
+    pub fn verif_raw_dump_threshold(&mut self, memory: usize) -> &mut Self {
+        self.dump_threshold = memory;
+        self
+    }
+}
+
+#[cfg(grenad_verif)]
+impl<MF, CC: ChunkCreator> SorterBuilder<MF, CC> {
+    /// Calls the real `build` then, when reallocation is allowed, replaces the
+    /// fresh initial buffer by one of the given capacity (at least 16 bytes).
+    pub fn verif_build_with_initial_capacity(self, capacity: usize) -> Sorter<MF, CC> {
+        let mut sorter = self.build();
+        if sorter.allow_realloc {
+            sorter.entries = Entries::with_capacity(cmp::max(capacity, 16));
+        }
+        sorter
+    }
+}
+
+#[cfg(grenad_verif)]
+impl<MF, CC: ChunkCreator> Sorter<MF, CC> {
+    /// Read-only: (buffer length, entries bytes, bounds count, number of chunks).
+    pub fn verif_probe(&self) -> (usize, usize, usize, usize) {
+        (
+            self.entries.buffer.len(),
+            self.entries.entries_len,
+            self.entries.bounds_count,
+            self.chunks.len(),
+        )
+    }
+}
+
 #[cfg(test)]
 mod tests {
     use std::convert::Infallible;
